@@ -528,6 +528,41 @@ func (c *EvalCtx) ghostField(gf *GhostField, args []SExpr) (TV, error) {
 	return TV{Val: Select(h, loc), Ty: t, Unsigned: true}, nil
 }
 
+func (c *EvalCtx) specArgs(sf *SpecFunc, args []SExpr) ([]TV, error) {
+	if len(args) != len(sf.Params) {
+		return nil, fmt.Errorf("%s expects %d arguments", sf.Name, len(sf.Params))
+	}
+	if c.depth > 40 {
+		return nil, fmt.Errorf("spec function recursion too deep at %s", sf.Name)
+	}
+	tc := &EvalCtx{e: c.e, spec: sf.Spec}
+	var avs []TV
+	for i, a := range args {
+		v, err := c.eval(a)
+		if err != nil {
+			return nil, err
+		}
+		pt, ps, err := tc.resolveType(sf.Params[i].Type)
+		if err != nil {
+			return nil, fmt.Errorf("%s: %v", sf.Name, err)
+		}
+		v, err = c.coerce(v, TV{Val: Val{"", ps}, Ty: pt})
+		if err != nil {
+			return nil, err
+		}
+		if v.S != ps {
+			return nil, fmt.Errorf("%s: argument %d has sort %s, want %s", sf.Name, i+1, v.S, ps)
+		}
+		if pt != nil {
+			v.Ty = pt
+		} else {
+			v.Unsigned = true
+		}
+		avs = append(avs, v)
+	}
+	return avs, nil
+}
+
 func (c *EvalCtx) callSpecFunc(sf *SpecFunc, args []SExpr) (TV, error) {
 	if len(args) != len(sf.Params) {
 		return TV{}, fmt.Errorf("%s expects %d arguments", sf.Name, len(sf.Params))
@@ -720,4 +755,104 @@ func (c *EvalCtx) evalModTarget(x SExpr) (modTarget, error) {
 
 func sanitizeLabel(s string) string {
 	return strings.Join(strings.Fields(s), " ")
+}
+
+// evalConjuncts evaluates a boolean spec expression as a list of conjuncts whose conjunction is
+// equivalent to it: top-level &&, the consequent of ==>, the body of forall and the bodies of
+// defined (non-opaque) spec functions are split. Each conjunct becomes an obligation of its own.
+func (c *EvalCtx) evalConjuncts(x SExpr, budget *int) ([]Val, error) {
+	single := func() ([]Val, error) {
+		v, err := c.evalBool(x)
+		if err != nil {
+			return nil, err
+		}
+		return []Val{v}, nil
+	}
+	if *budget <= 0 {
+		return single()
+	}
+	switch t := x.(type) {
+	case *SBinary:
+		switch t.Op {
+		case "&&":
+			l, err := c.evalConjuncts(t.X, budget)
+			if err != nil {
+				return nil, err
+			}
+			*budget--
+			r, err := c.evalConjuncts(t.Y, budget)
+			if err != nil {
+				return nil, err
+			}
+			return append(l, r...), nil
+		case "==>":
+			p, err := c.evalBool(t.X)
+			if err != nil {
+				return nil, err
+			}
+			cs, err := c.evalConjuncts(t.Y, budget)
+			if err != nil {
+				return nil, err
+			}
+			for i := range cs {
+				cs[i] = Implies(p, cs[i])
+			}
+			return cs, nil
+		}
+	case *SQuant:
+		if t.Forall {
+			parts := splitConjSyntactic(t.Body)
+			if len(parts) > 1 && len(parts) <= *budget {
+				var out []Val
+				for _, pt := range parts {
+					q := *t
+					q.Body = pt
+					v, err := c.evalBool(&q)
+					if err != nil {
+						return nil, err
+					}
+					out = append(out, v)
+					*budget--
+				}
+				return out, nil
+			}
+		}
+	case *SCall:
+		if id, ok := t.Fun.(*SIdent); ok {
+			if sf, ok := c.e.P.CS.SpecFuncs[id.Name]; ok && sf.Body != nil && !sf.Opaque && strings.TrimSpace(sf.Ret) == "bool" && c.depth < 8 {
+				if _, shadow := c.bind[id.Name]; !shadow {
+					avs, err := c.specArgs(sf, t.Args)
+					if err != nil {
+						return nil, err
+					}
+					bc := &EvalCtx{e: c.e, st: c.st, old: c.old, fr: nil, bind: map[string]TV{}, spec: sf.Spec, depth: c.depth + 1, loopPre: c.loopPre, loopIdx: c.loopIdx}
+					for i, p := range sf.Params {
+						bc.bind[p.Name] = avs[i]
+					}
+					return bc.evalConjuncts(sf.Body, budget)
+				}
+			}
+		}
+	}
+	return single()
+}
+
+// splitConjSyntactic: conjuncts of e obtained by splitting && and distributing ==> over it.
+func splitConjSyntactic(x SExpr) []SExpr {
+	if b, ok := x.(*SBinary); ok {
+		if b.Op == "&&" {
+			return append(splitConjSyntactic(b.X), splitConjSyntactic(b.Y)...)
+		}
+		if b.Op == "==>" {
+			rs := splitConjSyntactic(b.Y)
+			if len(rs) > 1 {
+				var out []SExpr
+				for _, r := range rs {
+					out = append(out, &SBinary{Op: "==>", X: b.X, Y: r})
+				}
+				return out
+			}
+		}
+	}
+	return []SExpr{x}
 }
